@@ -12,6 +12,41 @@ from harness.common import Check, core, sx, z3
 from harness.stubs import SymRng, UserFns
 
 
+def record_sampler_arguments(a):
+    """Wrap the sampler class an Aspire instance builds so that the keyword arguments
+    its constructor and its sample() receive are recorded (same signatures, so the
+    real keyword routing of Aspire.sample_posterior is unchanged)."""
+    import functools
+    import inspect
+
+    received = []
+    real_get = a.get_sampler_class
+
+    def get(sampler_type):
+        base = real_get(sampler_type)
+
+        class Recording(base):
+            @functools.wraps(base.__init__)
+            def __init__(self, *args, **kw):
+                received.append({"where": "constructor", "rng": kw.get("rng")})
+                super(Recording, self).__init__(*args, **kw)
+
+            @functools.wraps(base.sample)
+            def sample(self, *args, **kw):
+                if "rng" in kw:
+                    received.append({"where": "sample", "rng": kw.get("rng")})
+                return super(Recording, self).sample(*args, **kw)
+
+        Recording.__init__.__signature__ = inspect.signature(base.__init__)
+        Recording.sample.__signature__ = inspect.signature(base.sample)
+        Recording.__name__ = base.__name__
+        Recording.__qualname__ = base.__qualname__
+        return Recording
+
+    a.get_sampler_class = get
+    return received
+
+
 class LoopCheck(Check):
     props: set = set()
     flows = ("plain",)
@@ -239,12 +274,16 @@ class LoopCheck(Check):
                 # the n_samples argument is required by the signature but must be
                 # irrelevant on resume (the checkpointed population is used)
                 res.N_arg = res.N + int(cfg.get("resume_n_samples_delta", 0))
+                # had the reference run been interrupted right after this checkpoint, its
+                # likelihood would have been asked for this many points
+                res.points_asked_before = ck["n_ll_points"]
                 res.run(resume_from=src, checkpoint="callback", checkpoint_every=1)
                 if route == "dict_twice":
                     # the same dictionary once more (a second interruption): resuming
                     # must not have consumed or altered it
                     res = self.new_env(ctx, cfg, fns, tag=f"s{k}", rng=SymRng(ctx, "other", 78))
                     res.kernel_offset = ck["n_acc"]
+                    res.points_asked_before = ck["n_ll_points"]
                     res.run(resume_from=src, checkpoint="callback", checkpoint_every=1)
                 d = {"checkpoint": k, "iteration": ck["iteration"], "route": route}
                 if "C11" in P:
@@ -291,11 +330,16 @@ class LoopCheck(Check):
                     with h5py.File(path, "r") as f:
                         blob = f["checkpoint"]["state"][...].tobytes()
                     ctx.prove(blob == last, "c12/file_is_latest_payload", detail={"file_bytes": len(blob), "latest_bytes": len(last), **d})
-            if "C11" in P and os.path.exists(path):
+            if ("C11" in P or "C17" in P) and os.path.exists(path):
                 res = self.new_env(ctx, cfg, fns, tag=f"c{c}", rng=SymRng(ctx, "other", 77))
                 res.kernel_offset = len(pickle.loads(last)["history"].mcmc_acceptance)
                 res.run(resume_from=path)
-                loop_checks.compare_runs(ctx, ref, res, "c11/resume_file", detail=d)
+                if "C11" in P:
+                    loop_checks.compare_runs(ctx, ref, res, "c11/resume_file", detail=d)
+                if "C17" in P and not res.stopped and res.final is not None:
+                    # the interrupted run went on evaluating after its last checkpoint
+                    res.points_asked_before = w.target.n_points
+                    loop_checks.check_count(ctx, res, "c17/count@resumed_after_fault", detail=d)
 
     # -- the resume-from-file constructor (C11) ------------------------------------
     def flow_resume_file(self, ctx, cfg, fns, tmp):
@@ -387,7 +431,25 @@ class LoopCheck(Check):
         dom = cfg.get("every_values", [1, 2, 3])
         ce = sx.sym_int("every", dom)
         env = self.new_env(ctx, cfg, fns)
-        env.run(checkpoint="callback", checkpoint_every=ce)
+        if cfg.get("cadence_via") == "file":
+            # the documented file route: no user callback, the sampler installs its own
+            # (observed by wrapping the factory; the real callback still writes the file)
+            smp = env.sampler
+            orig = smp.default_file_checkpoint_callback
+
+            def factory(path, *a, **k):
+                cb = orig(path, *a, **k)
+
+                def both(state):
+                    env._callback(state)
+                    return cb(state)
+
+                return both
+
+            smp.default_file_checkpoint_callback = factory
+            env.run(checkpoint_every=ce, checkpoint_file=os.path.join(tmp, "cadence.h5"))
+        else:
+            env.run(checkpoint="callback", checkpoint_every=ce)
         if env.stopped:
             raise core.PathCut()
         self.validate_against_numpy(ctx, cfg, env)
@@ -396,7 +458,8 @@ class LoopCheck(Check):
         its = [c["iteration"] for c in env.checkpoints]
         t = sx.term(ce)
         for v in dom:
-            want = [i for i in range(1, K + 1) if i % v == 0] + [K]
+            # cadence 0: no periodic checkpoint, only the one at the end
+            want = [i for i in range(1, K + 1) if v > 0 and i % v == 0] + [K]
             ctx.prove(z3.Implies(t == v, z3.BoolVal(its == want)), "c12/cadence", detail={"every": v, "written_at": its, "expected": want, "iterations": K})
         betas = [0.0] + [float(b) for b in hist.beta]
         for j, c in enumerate(env.checkpoints):
@@ -474,11 +537,16 @@ class LoopCheck(Check):
         kw = smc_loop.schedule_kwargs(cfg["schedule"], env.N)
         kw["sampler_kwargs"] = {"n_steps": 1}
         env.sampler_name = "MiniPCNSMC"
+        received = record_sampler_arguments(a)
         try:
             env.final = a.sample_posterior(n_samples=env.N, sampler="smc", rng=g, preconditioning="none", **kw)
         except smc_loop._Stop:
             env.stopped = True
         env.sampler = a.sampler
+        # the object that reaches the sampler is the user's generator itself, not a copy
+        # (a copy leaves the user's generator untouched: reusing it repeats the stream)
+        got = [r for r in received if r.get("rng") is not None]
+        ctx.prove(len(got) >= 1 and all(r["rng"] is g for r in got), "c20/generator_routed_unchanged", detail={"sampler_constructions": len(received), "with_generator": len(got)})
         return env
 
     def to_cex(self, fl):
